@@ -112,15 +112,25 @@ Definition inscope (c : case) : bool :=
   wt cfg_schema false FUEL (root c) (c_val c) && negb (has_nan (c_val c)).
 
 (* the property: the file loads, the loaded configuration equals the original and is valid *)
+(* ... and saving never panics, whatever the configuration holds *)
 Definition oracle (c : case) (out : list Z) : bool :=
-  if negb (inscope c) then true
-  else match out with
-       | 1 :: n :: rest => list_eqb (skipn (Z.to_nat n) rest) [1; 1; 1; 1]
-       | _ => false
-       end.
+  negb (list_eqb out [-2]) &&
+  (if negb (inscope c) then true
+   else match out with
+        | 1 :: n :: rest => list_eqb (skipn (Z.to_nat n) rest) [1; 1; 1; 1]
+        | _ => false
+        end).
 
-(* known finding 1: a skipped field (ServerUserToken.thumbprint) that holds a value *)
+(* known finding 1: the thumbprint cache of a server user token is filled.  The class exists only
+   while ServerUserToken.thumbprint is the one skipped field of the schema: any other skipped field
+   that holds a value is not covered by it. *)
+Definition only_thumbprint_skipped : bool :=
+  match skipped_fields cfg_schema with
+  | [(a, b)] => String.eqb a "S.ServerUserToken" && String.eqb b "thumbprint"
+  | _ => false
+  end.
 Definition known (c : case) : Z :=
-  if wt cfg_schema false FUEL (root c) (c_val c) && negb (wt cfg_schema true FUEL (root c) (c_val c)) then 1 else 0.
+  if only_thumbprint_skipped && wt cfg_schema false FUEL (root c) (c_val c) &&
+     negb (wt cfg_schema true FUEL (root c) (c_val c)) then 1 else 0.
 
 Definition valid (c : case) : Prop := inscope c = true.
